@@ -45,14 +45,17 @@ inductive Err | missingArg | keyError | indexError | badRef
 /-- `_set_input_args_for_function`:
     `{self.args[-i]: f_defaults[-i] for i in range(len(f_defaults), 0, -1)}`; `none` = IndexError
     (cannot happen for a signature Python accepts: it never has more defaults than parameters) -/
+def alignList (names : List String) (dflts : List Val) : List (Option (String × Val)) :=
+  (List.range dflts.length).reverse.map fun j =>
+    -- i = j + 1 runs len(f_defaults) … 1
+    if j + 1 ≤ names.length then
+      match names[names.length - (j + 1)]?, dflts[dflts.length - (j + 1)]? with
+      | some k, some v => some (k, v)
+      | _, _ => none
+    else none
+
 def alignDefaults (names : List String) (dflts : List Val) : Option Dict :=
-  (allSome ((List.range dflts.length).reverse.map fun j =>
-      -- i = j + 1 runs len(f_defaults) … 1
-      if j + 1 ≤ names.length then
-        match names[names.length - (j + 1)]?, dflts[dflts.length - (j + 1)]? with
-        | some k, some v => some (k, v)
-        | _, _ => none
-      else none)).map dictOf
+  (allSome (alignList names dflts)).map dictOf
 
 /-- `necessary_args`: `[arg for arg in self.args if arg not in self.defaults]` -/
 def necessary (params : List String) (d : Dict) : List String :=
